@@ -55,8 +55,8 @@ PROPS = {
         level_note="Termination and the rotation bound are asserted for the timer GetRoundTimerFunc selects under the default feature set; opt-in timers only for safety/no-unjust (stalls reported as observations). "
                    "Leader rotation is the formula of core/consensus/qbft.leader re-stated in the harness. One open finding (eager_timer_split_doubling) is excluded by signature.",
         runs={
-            "quick": [dict(test="TestC04Random", checks=15000, shards=4), dict(test="TestC04KnownFinding", checks=3), dict(test="TestC04Component", bin="comp", checks=150, shards=3, shrinktime="20s")],
-            "thorough": [dict(test="TestC04Random", checks=100000, shards=12, timeout=3000), dict(test="TestC04KnownFinding", checks=3), dict(test="TestC04Component", bin="comp", checks=4000, shards=4, timeout=3000)],
+            "quick": [dict(test="TestC04Random", checks=15000, shards=4), dict(test="TestC04Grid", checks=1, shards=6, shrinktime="5s"), dict(test="TestC04KnownFinding", checks=3), dict(test="TestC04Component", bin="comp", checks=150, shards=3, shrinktime="20s")],
+            "thorough": [dict(test="TestC04Random", checks=100000, shards=12, timeout=3000), dict(test="TestC04Grid", checks=8, shards=10, shrinktime="5s", timeout=3000), dict(test="TestC04KnownFinding", checks=3), dict(test="TestC04Component", bin="comp", checks=4000, shards=4, timeout=3000)],
         },
     ),
     "C07": dict(
@@ -102,8 +102,8 @@ PROPS = {
                    "for generated values of every core data type and fork version.",
         level_note="Single-threaded orders (races are for the thorough -race tier); unexported fields and time.Time are treated as unreachable/immutable; fetcher / scheduler / validatorapi fan-out are not yet wired.",
         runs={
-            "quick": [dict(test="TestC18Isolation", checks=900, shards=4)],
-            "thorough": [dict(test="TestC18Isolation", checks=12000, shards=16, timeout=3000)],
+            "quick": [dict(test="TestC18Isolation", checks=900, shards=4), dict(test="TestC18Threads", checks=400, shrinktime="15s")],
+            "thorough": [dict(test="TestC18Isolation", checks=12000, shards=13, timeout=3000), dict(test="TestC18Threads", checks=1000, shards=3, race=True, timeout=3000)],
         },
     ),
     "C05": dict(
